@@ -81,10 +81,13 @@ class Repo:
             raise AnalysisError('only %d modules found under %s' % (len(self.modules), pkgdir))
         # normalisation: helpers that did not exist in the reference tree are substituted back into their callers (inline.py)
         self.inlined = []
+        self.renamed = []
         if os.environ.get('NBSA_NO_INLINE') != '1':
-            from .inline import inline_new_functions, load_baseline
+            from .inline import inline_new_functions, load_baseline, rename_back, load_features
             try:
-                self.inlined = inline_new_functions(self.modules, load_baseline())
+                _bl = load_baseline()
+                self.renamed = rename_back(self.modules, _bl, load_features())
+                self.inlined = inline_new_functions(self.modules, _bl)
             except RecursionError:
                 raise AnalysisError('helper inlining did not terminate')
         for m in self.modules.values():
